@@ -49,6 +49,8 @@ pub fn check(c: &Case, stats: &mut Stats) -> CheckResult {
     let mut keys: BTreeSet<u32> = c.keys.iter().copied().collect();
     for id in &m.ids {
         keys.extend([*id, id.wrapping_sub(1), id.wrapping_add(1)]);
+        // aliases of a present id under power-of-two masks and decimal moduli
+        keys.extend([id.wrapping_add(1 << 24), id.wrapping_add(1 << 16), id.wrapping_add(10_000_000), id | (1 << 31), id.wrapping_add(3 << 24)]);
     }
     keys.extend([0, 1, ID_SPACE - 1, ID_SPACE, ID_SPACE + 1, u32::MAX, u32::MAX - 1, 1 << 31]);
     for k in &keys {
